@@ -394,7 +394,7 @@ theorem src6TopNF_up : (b : Block) → src6TopNF b = true → b.AllLitF → src6
     at its stack/frame limit. -/
 theorem eval_text6_syntactic (cc : CharClass) (src : Text) (ast : Block) (r : RBlock) (bc : Bytecode)
     (hp : parse cc src = .ok ast) (hs : src6TopNF ast = true) (hc : compileProgram ast = .ok (r, bc)) (F : Nat) :
-    (∃ n out, ∀ k, evalText cc (n + k) src = .error .index out) ∨
+    TextHitsLimit cc src ∨
     match specText cc F src with
     | .value t out => ∃ n, ∀ k, evalText cc (n + k) src = .value t out
     | .error e out => ∃ n, ∀ k, evalText cc (n + k) src = .error e out
